@@ -341,7 +341,7 @@ def nameref_asan(run, seqs):
         return
     d = V.scratch("C13n")
     env = dict(os.environ, ASAN_OPTIONS="detect_leaks=1:exitcode=99", UBSAN_OPTIONS="print_stacktrace=1")
-    items = [("W_C", W_C)] + [(str(q["id"]), scenario(q, dumps=False)) for q in seqs]
+    items = [("W_C", W_C), ("W_C2", W_C2)] + [(str(q["id"]), scenario(q, dumps=False)) for q in seqs]
     for name, sc in items:
         open(os.path.join(d, "n.scn"), "w").write(sc)
         rc, o, e = V.sh([unit, "n.scn"], cwd=d, timeout=600, env=env)
@@ -814,6 +814,17 @@ W_C = ("natoms 4\nnew\nconfig EOF\n" + YC % (3, 4) + XC + "EOF\n" + _wc_pos(0) +
        _wc_pos(2) + "step\n" + _wc_pos(3) + "step\necho PHASE redefined\nconfig EOF\n" + YC % (2, 3) + "EOF\n" + _wc_pos(4) + "step\n" + _wc_pos(5) + "step\necho END\n")
 
 
+# C2: the partner deleted and defined AGAIN with the same definition: the correlation function written at the end must be the one of
+# the run in which y was never touched (the name resolves to the new object, which computes the same values)
+def _wc2_pos(k):
+    return "".join("pos %d %s %s %s\n" % (a, 0.5 * a + 0.1 * k * ((a % 3) + 1), 0.3 * a, 0.2 * a * (k + 1)) for a in range(1, 5))
+def _wc2(prefix, redefine):
+    return ("natoms 4\nprefix %s\nnew\nconfig EOF\n" % prefix + YC % (3, 4) + XC.replace("corrFuncLength 4", "corrFuncLength 2") + "EOF\n" +
+            "".join(_wc2_pos(k) + "step\n" for k in range(3)) + ("script cv colvar y delete\nconfig EOF\n" + YC % (3, 4) + "EOF\n" if redefine else "") +
+            "".join(_wc2_pos(k) + "step\n" for k in range(3, 8)) + "postrun\necho END\n")
+W_C2, W_C2_REF = _wc2("wc2", True), _wc2("wc2r", False)
+
+
 def run_scn(unit, d, text, name="w.scn"):
     p = os.path.join(d, name)
     open(p, "w").write(text)
@@ -915,6 +926,22 @@ def replay_witnesses(run, unit, d, tabs, model):
         if st[0] != ["ok", "ok"] or st[2] != ["ok", "ok"]:
             run.violation("name-reference-not-resolved", "x correlates with y: steps while y exists report %s, steps after y was deleted and defined again report %s "
                           "(all four must succeed: the name is looked up at every use)" % (st[0], st[2]), {"kind": "scenario", "scenario": W_C})
+    rc, o, e = run_scn(unit, d, W_C2)
+    rc2, o2, e2 = run_scn(unit, d, W_C2_REF)
+    run.count("witness:C2", True)
+    fa, fb = os.path.join(d, "wc2.x.corrfunc.dat"), os.path.join(d, "wc2r.x.corrfunc.dat")
+    if "POSTRUN err=ok" not in o or "POSTRUN err=ok" not in o2 or "err=input" in o or not os.path.exists(fa) or not os.path.exists(fb):
+        run.violation("witness:C2:crash", "the witness of a partner variable deleted and defined again does not run or writes no correlation function (rc=%d): %s" % (
+            rc, " ".join(l for l in o.split("\n") if "err=" in l)[-300:]), {"kind": "identity", "scenario": W_C2, "reference": W_C2_REF})
+    else:
+        A, B = open(fa).read(), open(fb).read()
+        run.dist("witness:C2:samples:" + (re.search(r"samples = (\d+)", A) or re.search("()", "")).group(1))
+        if A != B:
+            run.violation("name-reference-identity", "x correlates with y; y deleted and defined again with the same definition after 3 steps, 5 more steps: the "
+                          "correlation function of x differs from the run in which y was never deleted: %s instead of %s" % (
+                              [l for l in A.split("\n") if l and not l.startswith("#")], [l for l in B.split("\n") if l and not l.startswith("#")]),
+                          {"kind": "identity", "scenario": W_C2, "reference": W_C2_REF})
+        os.remove(fa); os.remove(fb)
     # N: default names of unnamed biases stay distinct; deletion by name hits the right object
     rc, o, e = run_scn(unit, d, W_N)
     dumps = D.parse_deps_blocks(o.split("\n"))
